@@ -246,6 +246,15 @@ func runBlocks(t *testing.T, f *blockFixture, rng *hx.Rng, p *hx.Proto, nTx int)
 					if ig, _ := core.IntrinsicGas(g.ethTx.Data(), g.ethTx.AccessList(), g.ethTx.To() == nil, true, true); o.rGasUsed < ig || o.rGasUsed > g.ethTx.Gas() {
 						p.Oracle("gas-bounds", "tx %d: gas used %d outside [intrinsic %d, limit %d]", i, o.rGasUsed, ig, g.ethTx.Gas())
 					}
+					// created-contract address: reported exactly when the creation succeeded, and equal to CREATE(sender, nonce)
+					isCreate := g.ethTx.To() == nil
+					wantAddr := ""
+					if isCreate && o.receipt.Status == 1 {
+						wantAddr = crypto.CreateAddress(ws[g.sender].GetEthAddress(), g.ethTx.Nonce()).Hex()
+					}
+					if !strings.EqualFold(o.contract, wantAddr) {
+						p.Oracle("contract-address", "tx %d (%s): tx_receipt contract address %q, expected %q (creation=%v status=%d)", i, g.kind, o.contract, wantAddr, isCreate, o.receipt.Status)
+					}
 					if (o.receipt.Status == 1) != (o.vmErr == "") {
 						p.Oracle("status", "tx %d: status %d but vm error %q", i, o.receipt.Status, o.vmErr)
 					}
